@@ -66,12 +66,26 @@ def gen_scripts(ctx, quick):
                 [F(m) for m in reversed(order) if m != hung] * 2 + [F(hung, False)]
         scripts.append({"n": n, "mgmt": False, "deps": deps, "enabled": [False] * n, "startTimeoutMs": 300, "steps": steps,
                         "directed": "starttimeout"})
+    # directed: a chain that is only running as a dependency of one enabled module is dropped as a whole when that
+    # module is disabled (every marker of the previous pass is stale), while an independent module is switched on
+    T = lambda m, on: {"op": "toggle", "m": m, "ok": on}
+    for deps in ([[], [1], [2]], [[], [1], [2], []], [[], [1], [2], [3]]):
+        n = len(deps)
+        top = 3 if n < 4 or deps[3] == [] else 4
+        chain = list(range(1, top + 1))
+        en = [m == top for m in range(1, n + 1)]
+        steps = [{"op": "start", "m": 0, "ok": True}] + [F(m) for m in range(1, n + 1)] + [F(m) for m in chain] + [T(top, False)]
+        if n == 4 and deps[3] == []:
+            steps.append(T(4, True))
+        steps += [{"op": "manage", "m": 0, "ok": True}] + [F(m) for m in reversed(chain)] * 2 + [F(4)] * (1 if n == 4 else 0) + \
+                 [{"op": "manage", "m": 0, "ok": True}, {"op": "shutdown", "m": 0, "ok": True}] + [F(m) for m in range(n, 0, -1)] * 2
+        scripts.append({"n": n, "mgmt": True, "deps": deps, "enabled": en, "steps": steps, "directed": "chaindrop"})
     rnd = random.Random(ctx.seed)
     for i, s in enumerate(scripts):
-        s["eager"] = (i % 2 == 0 or bool(s.get("directed"))) and s.get("directed") != "starttimeout"   # an adversarial environment: the next API call follows a return at once
+        s["eager"] = (i % 2 == 0 or bool(s.get("directed"))) and s.get("directed") not in ("starttimeout", "chaindrop")   # an adversarial environment: the next API call follows a return at once
         for st in s["steps"]:
             if st["op"] == "finish" and not st["ok"]:
-                st["how"] = rnd.choice(["error", "panic"])
+                st["how"] = rnd.choice(["error", "panic", "canceled"])
     return scripts
 
 
